@@ -5,7 +5,8 @@
   `encodePieces_eq`).  `lstep_*`: for an admissible piece (`pieceOk`) the reader goes from the state `stOf F cur`
   to `stOf F (curAfter F cur pc)` and the cursor invariant `CurOk` is kept — directory, vertex spans (double or
   exact float), edge / face / cell spans with any admissible width, offset and valence mode, property spans,
-  skippable chunks.  Faces and cells: polyhedral target without topology check.
+  skippable chunks.  Faces and cells: under the hypothesis that the target mesh accepts the span (`hadd`), given the
+  edges / faces read so far.
   Proof-only file (not imported by the judge).  Core only.
 -/
 import OVM.IO.Ovmb.RoundTripLayoutBase
@@ -244,9 +245,10 @@ theorem topo_valence (fixed : Bool) (v fv : Nat)
   · exact absurd h hne
   · simp [h1, h2]
 
-theorem lstep_faces (hk : cfg.kind = .poly) (ht : cfg.topoCheck = false) (hw : WF F)
+theorem lstep_faces (hw : WF F)
     (cur : Cur) (hcur : CurOk F cur) (pc : Piece) (count : Nat) (fixed : Bool) (valEnc hEnc off : Nat)
-    (hs : pc.spec = .faces count fixed valEnc hEnc off) (hok : pieceOk F cur pc = true) :
+    (hs : pc.spec = .faces count fixed valEnc hEnc off) (hok : pieceOk F cur pc = true)
+    (hadd : addFaces cfg (F.edges.take cur.e) (slice F.faces cur.f count) = .ok true) :
     processChunk cfg (stOf F cur) (chunkOf F cur pc).hdr (chunkOf F cur pc).payload = .ok (stOf F (curAfter F cur pc))
       ∧ CurOk F (curAfter F cur pc) := by
   simp only [pieceOk, hs, valencesOk, Bool.and_eq_true, decide_eq_true_eq] at hok
@@ -283,7 +285,7 @@ theorem lstep_faces (hk : cfg.kind = .poly) (ht : cfg.topoCheck = false) (hw : W
         have ht' : (stOf F cur).topo = F.topo := rfl
         rw [ht'] at h
         simpa [h, topoTypeHexahedral, topoTypeTetrahedral] using this)
-      (addFaces_poly cfg hk ht _ _)
+      hadd
     rw [stOf_faces_length F cur hcur] at hres
     rw [hres, hcur', hsl]
     simp only [stOf, Except.ok.injEq, RState.mk.injEq, true_and, and_true]
@@ -297,9 +299,11 @@ theorem lstep_faces (hk : cfg.kind = .poly) (ht : cfg.topoCheck = false) (hw : W
     obtain ⟨a, b⟩ := hcur.pk i p hp
     exact ⟨a, Nat.le_trans b (slotCount_mono _ (Nat.le_refl _) (Nat.le_refl _) (Nat.le_add_right _ _) (Nat.le_refl _))⟩
 
-theorem lstep_cells (hk : cfg.kind = .poly) (ht : cfg.topoCheck = false) (hw : WF F)
+theorem lstep_cells (hw : WF F)
     (cur : Cur) (hcur : CurOk F cur) (pc : Piece) (count : Nat) (fixed : Bool) (valEnc hEnc off : Nat)
-    (hs : pc.spec = .cells count fixed valEnc hEnc off) (hok : pieceOk F cur pc = true) :
+    (hs : pc.spec = .cells count fixed valEnc hEnc off) (hok : pieceOk F cur pc = true)
+    (hadd : addCells cfg (F.edges.take cur.e) (F.faces.take cur.f) (slice F.cells cur.c count)
+      = .ok (some (slice F.cells cur.c count))) :
     processChunk cfg (stOf F cur) (chunkOf F cur pc).hdr (chunkOf F cur pc).payload = .ok (stOf F (curAfter F cur pc))
       ∧ CurOk F (curAfter F cur pc) := by
   simp only [pieceOk, hs, valencesOk, Bool.and_eq_true, decide_eq_true_eq] at hok
@@ -336,7 +340,7 @@ theorem lstep_cells (hk : cfg.kind = .poly) (ht : cfg.topoCheck = false) (hw : W
         have ht' : (stOf F cur).topo = F.topo := rfl
         rw [ht'] at h
         simpa [h, topoTypeHexahedral, topoTypeTetrahedral] using this)
-      (addCells_poly cfg hk ht _ _ _)
+      hadd
     rw [stOf_cells_length F cur hcur] at hres
     rw [hres, hcur', hsl]
     simp only [stOf, Except.ok.injEq, RState.mk.injEq, true_and, and_true]
